@@ -6,7 +6,7 @@ import (
 
 func init() {
 	register("C04",
-		"Decides only the count plumbing and serialisation points on which stream integrity rests - NOT the identity of the delivered bytes: (R1) send side - flush() and the poller's outputAck skip exactly the count the send syscall returned (guarded n>0) and release what was skipped; the dispatch functions pass iosend's count to OutputAck and send the vectors Outputs returned; (R2) receive side - the dispatch functions and readall pass ioread's count to InputAck after every read, reading into the vectors Inputs returned; inputAck(n) acknowledges n to the buffer (bookAck(n); bookAck(0) for n<=0) before anything else and inputs() reserves through book(); (R3) the input buffer has a single producer (book/bookAck are called only from inputs/inputAck) and the reader touches its tail only under the slot token; (R4) the socket is drained (readall) before a hang-up is honoured; (R5) the flush hand-off: registration before waiting, completion signalled only when the output buffer is empty. Not decided: byte identity, short-write boundaries, iovec arithmetic, interleavings of reader and poller on the lock-free input buffer. A pass means the counts and serialisation points are wired correctly, nothing more.",
+		"Decides only the count plumbing and serialisation points on which stream integrity rests - NOT the identity of the delivered bytes: (R1) send side - flush() and the poller's outputAck skip exactly the count the send syscall returned (guarded n>0) and release what was skipped; the dispatch functions pass iosend's count to OutputAck and send the vectors Outputs returned; (R2) receive side - the dispatch functions and readall pass ioread's count to InputAck after every read, reading into the vectors Inputs returned; inputAck(n) acknowledges n to the buffer (bookAck(n); bookAck(0) for n<=0) before anything else and inputs() reserves through book(); (R3) the input buffer has a single producer (book/bookAck are called only from inputs/inputAck) and the reader touches its tail only under the slot token; (R4) the socket is drained (readall) before a hang-up is honoured; (R5) the flush hand-off: registration before waiting, completion signalled only when the output buffer is empty. Also re-evaluated here: the epoll interest masks and the filled-array dispatch (C11.R6), SetOnRequest's store-then-test (C06.R3), hang-up offering buffered input (C06.R4), pending-byte accounting (C01.R8), heap private copies (C03.R4). Not decided: byte identity, short-write boundaries, iovec arithmetic, interleavings of reader and poller on the lock-free input buffer. A pass means the counts and serialisation points are wired correctly, nothing more.",
 		[]string{"readv/sendmsg return the number of bytes transferred", "the poller invokes Inputs/InputAck/Outputs/OutputAck only with the slot token held (C10)"},
 		func(r *Run) {
 			cfgs := []string{"linux", "darwin"}
